@@ -126,10 +126,90 @@ def extract(repo: Path) -> dict:
     out["caughtSource"], out["loopShape"] = _describe_source(repo, xp)
     # ---- graphs.BaseNode: which External* classes become strings, when the node's URL is used as it is
     out["nodeStringified"], out["nodeVerbatim"], out["nodeVerbatimSource"] = _probe_node_url(repo, sf, gr)
+    # ---- (round 6) looking up a child of an imported object: the attributes `FortranBase.children` visits, in
+    #      order, SUBLINK_TYPES, and what a fresh object of each ENTITIES class has under these names
+    out["childrenOrder"], out["sublinkTypes"], out["classDefaults"] = _probe_children(xp, sf)
     for (n, caught), (n2, ex) in zip(out["fetchErrors"], out["handlerExits"]):
         if n != n2 or caught != (ex != "uncaught"):
             raise LookupError(f"load_external_modules: {n} caught={caught} but handler exit {ex!r}")
     return out
+
+
+# --------------------------------------------------------------------------- probing FortranBase.children (round 6)
+
+def _probe_children(xp, sf):
+    """The list attributes `FortranBase.children` chains, in the order it visits them - observed, not read: the
+    property is evaluated on an object that answers *every* attribute it is asked for with a one-element list
+    holding a marker entity named after the attribute.  Markers that come out are list attributes (in order); a
+    list that comes out whole is one of the single-object children (`constructor`, ...).  Then SUBLINK_TYPES as the
+    module holds it, and - per ENTITIES class - which of these attributes a fresh object has and of what shape."""
+    base = getattr(sf, "FortranBase", None)
+    prop = getattr(base, "children", None)
+    if not isinstance(prop, property):
+        raise LookupError("FortranBase.children is not a property")
+
+    class Marker(base):
+        def __init__(self, name):
+            self.name = name
+
+    asked = []
+
+    class Probe(base):
+        def __init__(self):
+            pass
+
+        def __getattr__(self, attr):
+            if attr.startswith("__"):
+                raise AttributeError(attr)
+            asked.append(attr)
+            return [Marker(attr)]
+
+    try:
+        got = list(Probe().children)
+    except Exception as e:
+        raise LookupError(f"FortranBase.children cannot be probed ({type(e).__name__}: {e})")
+    order, single = [], []
+    for x in got:
+        if isinstance(x, Marker):
+            order.append(x.name)
+        elif isinstance(x, list) and len(x) == 1 and isinstance(x[0], Marker):
+            single.append(x[0].name)
+        else:
+            raise LookupError("FortranBase.children yields something that was not put in")
+    if not order or len(set(order)) != len(order):
+        raise LookupError("FortranBase.children: no list attributes / an attribute visited twice")
+    sub = getattr(sf, "SUBLINK_TYPES", None)
+    if not (isinstance(sub, dict) and sub and all(isinstance(k, str) and isinstance(v, str) for k, v in sub.items())):
+        raise LookupError("sourceform.SUBLINK_TYPES is not a dict of strings")
+    # `find_child` must be the mechanism the model has: kind -> SUBLINK_TYPES -> hasattr -> list(...), else children
+    universe = list(dict.fromkeys(order + single + list(sub.values())))
+    defaults = []
+    for k, cls in xp.ENTITIES.items():
+        o = _make(cls, "probe", "u")
+        row = []
+        for a in universe:
+            if not hasattr(o, a):
+                continue
+            v = getattr(o, a)
+            if a in single:
+                if v:
+                    raise LookupError(f"{cls.__name__}.{a}: a single-object child of an imported object is not modelled")
+                continue
+            if isinstance(v, (list, tuple)) and not v:
+                row.append((a, "list"))
+            elif isinstance(v, dict) and not v:
+                row.append((a, "dict"))
+            elif isinstance(v, str):
+                row.append((a, "str"))
+            elif v is None or isinstance(v, (bool, int, float)):
+                row.append((a, "scalar"))
+            else:
+                raise LookupError(f"{cls.__name__}.{a}: default value {v!r} of an imported object is not modelled")
+        defaults.append((k, row))
+    for a in single:
+        if a in xp.ATTRIBUTES:
+            raise LookupError(f"ATTRIBUTES carries the single-object child {a!r}: not modelled")
+    return order, list(sub.items()), defaults
 
 
 # --------------------------------------------------------------------------- probing load_external_modules
@@ -575,6 +655,21 @@ def render(t: dict) -> str:
         "/-- `graphs.BaseNode.__init__`: the node's URL is used as it is when this holds, otherwise it is prefixed with",
         f"    `graph_data.parent_dir` ({t['nodeVerbatimSource']}) -/",
         f"def nodeVerbatim : NodeCond := {_lean_cond(t['nodeVerbatim'])}",
+        "/-- (round 6) the list attributes `FortranBase.children` chains, in the order it visits them (probed) -/",
+        "def childrenOrder : List Str := [",
+        ",\n".join(f"  {_lean_str(a)} /- {a} -/" for a in t["childrenOrder"]),
+        "]",
+        "/-- (round 6) `sourceform.SUBLINK_TYPES`: kind of a child in `[[parent:child(kind)]]` -> attribute searched -/",
+        "def sublinkTypes : List (Str × Str) := [",
+        ",\n".join(f"  ({_lean_str(k)}, {_lean_str(v)}) /- {k} -> {v} -/" for k, v in t["sublinkTypes"]),
+        "]",
+        "/-- (round 6) per key of ENTITIES: which of the attributes above a freshly made object of the class has before",
+        "    `dict2obj` sets anything, and the shape of the value (`list` / `dict` / `str`: empty, iterable; `scalar`) -/",
+        "def classDefaults : List (Str × List (Str × Str)) := [",
+        ",\n".join("  (%s, [%s]) /- %s: %s -/" % (_lean_str(k), ", ".join(f"({_lean_str(a)}, {_lean_str(sh)})" for a, sh in row),
+                                                 k, ", ".join(f"{a}={sh}" for a, sh in row) or "-")
+                   for k, row in t["classDefaults"]),
+        "]",
         "end Ford.Ext.Gen",
         "",
     ]
